@@ -280,6 +280,9 @@ class PluginGen(object):
         """PrintStarted, a program (possibly cut short), an end event."""
         rng = self.rng
         self.event("PrintStarted")
+        if rng.random() < 0.12:
+            # the after-print hook right after a (re)start: nothing may be left of an earlier job
+            self.steps.append(("hook", "gcode", "afterPrintDone"))
         focus = rng.choice(["motion", "extrusion", "deferred", "at", "motion"])
         if self.focus == "deferred":
             focus = "deferred"
@@ -316,6 +319,11 @@ class PluginGen(object):
                 self.event(rng.choice(OTHER_EVENTS))
             elif roll < 0.12:
                 self.act_settings()
+            elif roll < 0.15:
+                # settings saved in the middle of the print (nothing of the plugin's changed)
+                self.event("SettingsUpdated")
+            elif roll < 0.16:
+                self.event("FileSelected")
         if known and self.exactOnly and self.applied["mayShrink"] and rng.random() < 0.35:
             # shrinking allowed: the region the tool is in is deleted through the API while the
             # episode is open (it stays open until a move ends outside), then the job completes
@@ -336,6 +344,48 @@ class PluginGen(object):
                 self.steps.append(("hook", "gcode", "afterPrintDone"))
                 self.event(rng.choice(END_EVENTS))
                 return
+        if known and self.exactOnly and rng.random() < 0.1:
+            # the job is restarted (print-started again, no end event) while an episode with
+            # pending commands is open: the restart resets everything, so the after-print hook of
+            # the new job has nothing to clean up
+            reg = rng.choice(known)
+            if reg["t"] == "rect":
+                tx, ty = (reg["x1"] + reg["x2"]) // 2, (reg["y1"] + reg["y2"]) // 2
+            else:
+                tx, ty = reg["cx"], reg["cy"]
+            self.steps.append(("g", "G90", {}))
+            self.steps.append(("g", "G1 X%s Y%s" % (fmt_mm(tx), fmt_mm(ty)), {}))
+            self.steps.append(("g", rng.choice(["M204 S5", "M117 from the first start"]), {}))
+            self.event("PrintStarted")
+            self.steps.append(("hook", "gcode", "afterPrintDone"))
+            if rng.random() < 0.5:
+                self.steps.append(("g", "G28", {}))
+                self.steps.append(("g", "G1 X1 Y1", {}))
+            self.event(rng.choice(END_EVENTS))
+            return
+        if known and self.exactOnly and rng.random() < 0.15:
+            # settings are saved (SettingsUpdated, nothing of the plugin's changed) in the middle
+            # of an episode that has deferred commands pending; the episode then ends normally
+            reg = rng.choice(known)
+            if reg["t"] == "rect":
+                tx, ty = (reg["x1"] + reg["x2"]) // 2, (reg["y1"] + reg["y2"]) // 2
+            else:
+                tx, ty = reg["cx"], reg["cy"]
+            table = self.applied["xg"] if self.applied["xg"] is not None else \
+                {"M204": "merge", "M117": "last", "M205": "merge"}
+            codes = [c for c, m in table.items() if m != "exclude"] or ["M204"]
+            self.steps.append(("g", "G90", {}))
+            self.steps.append(("g", "G1 X%s Y%s" % (fmt_mm(tx), fmt_mm(ty)), {}))
+            self.steps.append(("g", "%s S%d" % (rng.choice(codes), rng.choice([5, 500])), {}))
+            self.event("SettingsUpdated")
+            if rng.random() < 0.5:
+                self.steps.append(("g", "%s P%d" % (rng.choice(codes), rng.choice([1, 50])), {}))
+            if rng.random() < 0.6:
+                self.steps.append(("g", "G1 X1 Y1", {}))
+            else:
+                self.steps.append(("hook", "gcode", "afterPrintDone"))
+            self.event(rng.choice(END_EVENTS))
+            return
         if known and self.exactOnly and rng.random() < 0.2:
             # the print ends while the tool is inside a region and no after-print script runs
             # before the end event: the episode is still open when the plugin goes idle, and an
